@@ -17,6 +17,9 @@ def get_prop(pid):
     if pid == "C18":
         import p_builders
         return p_builders.BuildersProp()
+    if pid == "C10":
+        import p_mask
+        return p_mask.MaskProp()
     raise SystemExit(f"unknown property {pid}")
 
 
